@@ -1125,11 +1125,11 @@ func TestZZVerifC06PipeTrace(t *testing.T) {
 // ---------------------------------------------------------------------- probe
 
 type zzC06ProbeIn struct {
-	Tab    []zzC06Entry `json:"tab"`
-	H      []string     `json:"h"`
-	QT     string       `json:"qt"`
-	Query  string       `json:"query"`
-	Want   []zzC06Out   `json:"want"`
+	Tab   []zzC06Entry `json:"tab"`
+	H     []string     `json:"h"`
+	QT    string       `json:"qt"`
+	Query string       `json:"query"`
+	Want  []zzC06Out   `json:"want"`
 	// PrevTable, if any, is the concrete table the server had before: it is
 	// set first, QS are asked, and Tab is reached from it the way the replay
 	// does (update in place where possible).
@@ -1141,7 +1141,7 @@ type zzC06ProbeIn struct {
 		Table []zzC06RW           `json:"table"`
 		QS    [][]json.RawMessage `json:"qs"`
 	} `json:"life"`
-	Expect    []struct {
+	Expect []struct {
 		Ask    [][]json.RawMessage `json:"ask"`
 		CNAME  []string            `json:"cname"`
 		IPs    []string            `json:"ips"`
